@@ -168,7 +168,7 @@ pub fn oversize(case: &Oversize) -> Verdict {
     }
 }
 
-fn case_strategy(cfg: GenCfg) -> impl Strategy<Value = Case> {
+pub fn case_strategy(cfg: GenCfg) -> impl Strategy<Value = Case> {
     (arb_value(cfg), arb_choices(24)).prop_map(|(value, repr)| Case { value, repr })
 }
 
